@@ -378,6 +378,44 @@ def build_mpo(ops, N, terms):
     return I, mps.generate_mpo(I, hts)
 
 
+def gen_factor(rng, big=False):
+    """random real MPO prefactor: either sign, magnitude 0.2..5 (x100 when `big`); short decimal expansion"""
+    f = round(rng.choice([-1, 1]) * 10 ** rng.uniform(-0.7, 0.7), 3)
+    return f * 100 if big else f
+
+
+def gen_hfactors(rng):
+    """prefactors of the (up to three) MPOs that H is assembled from: unit, non-unit, negative, unequal, occasionally of a
+    much larger magnitude (energy scale of H well above the default projection penalty)"""
+    big = rng.random() < 0.15
+    return [1.0 if rng.random() < 0.3 and not big else gen_factor(rng, big) for _ in range(3)]
+
+
+def gen_penalty(rng):
+    """None: the state is listed bare (documented default penalty 100); a number p: listed as the tuple (p, state)"""
+    return rng.choice([None, None, 100, round(10 ** rng.uniform(-1, 3), 3), round(10 ** rng.uniform(-1, 3), 3)])
+
+
+def build_hamiltonian(ops, N, terms, nsplit, hfactors=None):
+    """H = sum(terms) handed to the real code as `nsplit` MPOs  f_j * MPO(terms of group j, couplings divided by f_j):
+    the operator does not depend on nsplit / hfactors, the MPO prefactors (`.factor`, sign in the first tensor) do.
+    Returns (I, [f_j * H_j] as passed to dmrg_, [(f_j, H_j)] for the dense reference  sum_j f_j * dense(H_j))."""
+    I, Hs, parts = None, [], []
+    for j, g in enumerate(split_terms(terms, nsplit)):
+        f = float(hfactors[j]) if hfactors and j < len(hfactors) else 1.0
+        if f != 1.0:
+            g = [[re / f, im / f, sites, names] for re, im, sites, names in g]
+        I, Hg = build_mpo(ops, N, g)
+        parts.append((f, Hg))
+        Hs.append(Hg if f == 1.0 else f * Hg)
+    return I, Hs, parts
+
+
+def dense_H(res):
+    """dense reference of the Hamiltonian of a run: the prefactors are applied here, not by yastn"""
+    return sum(f * dense_mpo(h, res["ops"]) for f, h in res["parts"])
+
+
 def split_terms(terms, k):
     """split a Hermitian term list into k Hermitian groups (h.c. partners are adjacent and share the site set)"""
     groups = [[] for _ in range(k)]
@@ -463,9 +501,11 @@ def gen_case(rng, quick, kind):
     else:
         N = rng.choice([3, 4, 5] if quick else [3, 4, 5, 6])
         nsw = 24
-        methods = ["2site"] * 3 + ["1site"] * (nsw - 3)
+        # three '2site' sweeps open every sector of the bonds; the rest is all-'1site', all-'2site' or a random mixture
+        tail = rng.choice(["1site", "1site", "2site", "mix"])
+        methods = ["2site"] * 3 + [rng.choice(["1site", "2site"]) if tail == "mix" else tail for _ in range(nsw - 3)]
         D = 2 ** ((N + 1) // 2)
-        nproj = 0
+        nproj = rng.choice([0, 0, 1]) if kind == "converge" else 0
         Dsvd = 2 ** N
     cplx = rng.random() < 0.3
     terms = gen_terms(rng, family, sym, N, cplx=cplx, long_range=rng.random() < 0.4)
@@ -480,6 +520,8 @@ def gen_case(rng, quick, kind):
         "opts_eigs": {"hermitian": True, "ncv": rng.choice([3, 4, 6]), "which": "SR"},
         "precompute": rng.random() < 0.5,
         "nproj": nproj, "proj_seeds": [rng.randrange(1 << 30) for _ in range(nproj)],
+        "penalties": [gen_penalty(rng) for _ in range(nproj)],
+        "hfactors": gen_hfactors(rng),
         "Schmidt_tol": rng.choice([None, None, 1e-300]) if kind == "trace" else None,
         "use_default_eigs": kind == "trace" and rng.random() < 0.25,
     }
@@ -494,12 +536,7 @@ def run_dmrg(case, monitor=True, precompute=None, nsplit=None):
     N = case["N"]
     nsplit = case["nsplit"] if nsplit is None else nsplit
     precompute = case["precompute"] if precompute is None else precompute
-    groups = split_terms(case["terms"], nsplit)
-    I = None
-    Hs = []
-    for g in groups:
-        I, Hg = build_mpo(ops, N, g)
-        Hs.append(Hg)
+    I, Hs, parts = build_hamiltonian(ops, N, case["terms"], nsplit, case.get("hfactors"))
     H = Hs[0] if len(Hs) == 1 else Hs
     psi = random_state(ops, I, case["psi_seed"], case["n"], case["D_total"], case["dtype"])
     if case["canon"]:
@@ -511,11 +548,15 @@ def run_dmrg(case, monitor=True, precompute=None, nsplit=None):
         project.append(phi)
     for p in case.get("project_states", []):   # converged states supplied by the caller (excited-state oracle)
         project.append(p)
+    # both documented ways of listing a state: bare (default penalty 100) or (penalty, state)
+    pens = list(case.get("penalties") or [])
+    pens = (pens + [None] * len(project))[:len(project)]
+    project_arg = [phi if p is None else (p, phi) for p, phi in zip(pens, project)]
     v0 = dense_mps(psi, ops)
     methods = case["methods"]
     method = yastn.Method(methods[0])
     opts_eigs = None if case.get("use_default_eigs") else dict(case["opts_eigs"])
-    kw = dict(project=project or None, method=method, max_sweeps=len(methods), iterator=True, opts_eigs=opts_eigs,
+    kw = dict(project=project_arg or None, method=method, max_sweeps=len(methods), iterator=True, opts_eigs=opts_eigs,
               opts_svd=dict(case["opts_svd"]), precompute=precompute)
     if case.get("Schmidt_tol") is not None:
         kw["Schmidt_tol"] = case["Schmidt_tol"]
@@ -543,8 +584,8 @@ def run_dmrg(case, monitor=True, precompute=None, nsplit=None):
     finally:
         if mon:
             mon.__exit__(None, None, None)
-    return {"ops": ops, "H": H, "Hs": Hs, "psi": psi, "v0": v0, "outs": outs, "vecs": [v for v, _ in vecs], "mon": mon,
-            "err": err, "project": project}
+    return {"ops": ops, "H": H, "Hs": Hs, "parts": parts, "psi": psi, "v0": v0, "outs": outs, "vecs": [v for v, _ in vecs],
+            "mon": mon, "err": err, "project": project, "pens": [100.0 if p is None else float(p) for p in pens]}
 
 
 def _case_json(case):
@@ -595,6 +636,10 @@ def check_traces(ctx, case, res, pid="c09"):
                 ctx.fail("contract", f"{pid}:exit-state", f"exit state of the real trace: {ex}", case=_case_json(case))
 
 
+def _ray(H, w):
+    return float((w.conj() @ H @ w).real / (w.conj() @ w).real)
+
+
 def oracles(ctx, case, res):
     """(ii) the property's observables on the real result against dense references"""
     cj = _case_json(case)
@@ -608,9 +653,9 @@ def oracles(ctx, case, res):
         return
     if N > 8:
         return
-    Hd = sum(dense_mpo(h, ops) for h in res["Hs"])
+    Hd = dense_H(res)
     herm = np.linalg.norm(Hd - Hd.conj().T)
-    if herm > 1e-12:
+    if herm > 1e-12 * max(1.0, np.abs(Hd).max()):
         ctx.fail("contract", "c09:generator-not-hermitian", f"generated H is not Hermitian ({herm})", case=cj)
         return
     tot = basis_charges(ops, N, case["sym"])
@@ -627,6 +672,20 @@ def oracles(ctx, case, res):
     v = dense_mps(psi, ops)
     nproj = len(res["project"])
     vecs = res["vecs"]
+    # -- penalised Hamiltonian.  Documented behaviour of `project` (docstring of dmrg_): every listed state adds the penalty
+    #    term  penalty * |phi><phi|  to the Hamiltonian (default penalty 100), i.e. the run minimises
+    #        H' = H + sum_i p_i |phi_i><phi_i| ,
+    #    a Hermitian operator that preserves the sector: the per-sweep and convergence clauses of the property apply to H'.
+    phis = [dense_mps(p, ops) for p in res["project"]]
+    pens = res["pens"]
+    Hp, lamP, scaleP = Hd, lam, scale
+    if nproj:
+        if any(p.factor != 1 or np.abs(f[~mask]).max(initial=0.0) != 0.0 for p, f in zip(res["project"], phis)):
+            ctx.fail("contract", "c09:generator-projector", "a listed state has factor != 1 or lies outside the sector", case=cj)
+            return
+        Hp = Hd + sum(p * np.outer(f, f.conj()) for p, f in zip(pens, phis))
+        lamP = np.linalg.eigvalsh(Hp[np.ix_(mask, mask)])
+        scaleP = max(scale, np.abs(lamP).max())
     # -- known defect (see known_findings.json): a '2site' sweep never renormalises the two-site tensor.  The state leaves the
     #    sweep un-normalised when the truncation binds on bond (0,1) OR when `eigs` (Lanczos without re-orthogonalisation,
     #    absolute breakdown threshold 1e-13) returns a non-unit Ritz vector in a small symmetric local space.  Everything that
@@ -659,7 +718,7 @@ def oracles(ctx, case, res):
         fail("c09:sector", "returned state has amplitude outside the charge sector of the initial state")
     # -- reported energy = <psi|H|psi>
     Ed = (v.conj() @ Hd @ v).real
-    ov = [abs(np.vdot(dense_mps(p, ops), v)) for p in res["project"]]
+    ov = [abs(np.vdot(f, v)) for f in phis]
     if nproj == 0:
         if abs(outs[-1].energy - Ed) > 1e-9 * scale:
             fail("c09:energy-consistency", f"reported energy {outs[-1].energy!r} != dense <psi|H|psi> {Ed!r}")
@@ -668,46 +727,65 @@ def oracles(ctx, case, res):
         if abs(outs[-1].energy - Ed) > sum(ov) + 1e-9 * scale:
             fail("c09:energy-consistency", f"reported energy {outs[-1].energy!r} vs dense <psi|H|psi> {Ed!r}, overlaps {ov}")
     # -- per sweep: variational bound, monotonicity (truncation never binds: the generator keeps D_total large or the
-    #    reported discarded weight is zero)
-    E0 = (v0.conj() @ Hd @ v0).real / (v0.conj() @ v0).real
-    prev = E0
+    #    reported discarded weight is zero).  With penalties the minimised operator is H' (Rayleigh quotients of H').
+    prev = _ray(Hp, v0)
     nb_ok = True
     for out, w, bad in zip(outs, vecs, tainted):
-        Ew = (w.conj() @ Hd @ w).real / (w.conj() @ w).real
+        Ew = _ray(Hp, w)
         if nproj == 0:
             if abs(out.energy - (w.conj() @ Hd @ w).real) > 1e-9 * scale:
                 fail("c09:energy-consistency", f"sweep {out.sweeps}: reported energy {out.energy!r} != dense <psi|H|psi> {(w.conj() @ Hd @ w).real!r}")
             if (out.energy if not bad else Ew) < lam[0] - 1e-9 * scale:
                 fail("c09:variational", f"sweep {out.sweeps}: energy {out.energy!r} (Rayleigh quotient {Ew!r}) below the lowest eigenvalue {lam[0]!r} of the sector")
-            binds = out.max_discarded_weight is not None and out.max_discarded_weight > 1e-13
-            nb_ok = nb_ok and not binds
-            if nb_ok and Ew > prev + 1e-9 * scale:
+        binds = out.max_discarded_weight is not None and out.max_discarded_weight > 1e-13
+        nb_ok = nb_ok and not binds
+        if nb_ok and Ew > prev + 1e-9 * scaleP:
+            if nproj == 0:
                 fail("c09:monotone", f"sweep {out.sweeps} ({out.method}): energy increased {prev!r} -> {Ew!r} although no truncation binds")
-            ctx.count("monotone_checked" if nb_ok else "monotone_skipped_truncation")
+            else:
+                fail("c09:monotone-project", f"sweep {out.sweeps} ({out.method}): <H + sum_i p_i|phi_i><phi_i|> increased {prev!r} -> {Ew!r} "
+                                             f"although no truncation binds (penalties {pens})")
+        ctx.count(("monotone" if nproj == 0 else "monotone_project") + ("_checked" if nb_ok else "_skipped_truncation"))
         prev = Ew
-    # -- converged at maximal bond dimension => eigenstate
+    # -- converged at maximal bond dimension => eigenstate (of H' when states are penalised)
+    vn = v / nrm if nrm > 0 else v
+    En = _ray(Hp, vn)
     if case["kind"] in ("converge", "project") and len(outs) >= 3:
         conv = abs(outs[-1].energy - outs[-2].energy) < 1e-12 * scale and abs(outs[-2].energy - outs[-3].energy) < 1e-12 * scale
         if not conv:
             ctx.count("eigenstate_skipped_not_converged")
         elif nproj == 0:
             ctx.count("eigenstate_checked")
-            resid = np.linalg.norm(Hd @ v - Ed * v)
+            resid = np.linalg.norm(Hd @ vn - En * vn)
             if resid > 1e-4 * scale:
-                fail("c09:eigenstate", f"converged run at maximal bond dimension is not an eigenstate: residual {resid!r}, E={Ed!r}")
+                fail("c09:eigenstate", f"converged run at maximal bond dimension is not an eigenstate: residual {resid!r}, E={En!r}")
         else:
             ctx.count("project_checked")
-            if max(ov) > 1e-4:
-                fail("c09:project-overlap", f"result is not orthogonal to the penalised states: overlaps {ov}")
-            k = nproj
-            if len(lam) > k and case.get("project_exact"):
-                if Ed < lam[k] - 1e-5 * scale or Ed > lam[k] + 1e-5 * scale:
-                    fail("c09:project-level", f"with {k} penalised lowest states the energy {Ed!r} is not the next level {lam[k]!r}")
-    return {"lam": lam, "Ed": Ed, "v": v, "scale": scale}
+            resid = np.linalg.norm(Hp @ vn - En * vn)
+            if resid > 1e-4 * scaleP:
+                fail("c09:project-eigenstate", f"converged run at maximal bond dimension with penalties {pens} is not an eigenstate of "
+                                               f"H + sum_i p_i|phi_i><phi_i|: residual {resid!r}, <H'>={En!r}, <H>={Ed!r}, overlaps {ov}")
+            if case.get("project_exact"):
+                # listed states = converged lowest eigenstates; project_case established that the lowest level of H' is
+                # separated: it is the next level of H when the penalty exceeds the gap (then the result is orthogonal to
+                # the listed states), the penalised ground state otherwise (docstring: works "if the penalty is larger
+                # than the energy gap")
+                k = nproj
+                ctx.count("project_level_checked:" + ("next-level" if case.get("expect_orthogonal", True) else "penalty-below-gap"))
+                if abs(En - lamP[0]) > 1e-5 * scale:
+                    fail("c09:project-level", f"with the {k} lowest state(s) penalised by {pens} the run converged to <H'>={En!r} (<H>={Ed!r}, "
+                                              f"overlaps {ov}), the lowest level of the penalised H is {lamP[0]!r} (levels of H: {lam[:k + 2].tolist()})")
+                if case.get("expect_orthogonal", True):
+                    if max(ov) > case.get("ov_tol", 1e-4):
+                        fail("c09:project-overlap", f"result is not orthogonal to the penalised states: overlaps {ov} (penalties {pens})")
+                    if len(lam) > k and abs(Ed - lam[k]) > 1e-5 * scale:
+                        fail("c09:project-level", f"with {k} penalised lowest states the energy {Ed!r} is not the next level {lam[k]!r}")
+    resid0 = float(np.linalg.norm(Hd @ vn - _ray(Hd, vn) * vn))
+    return {"lam": lam, "Ed": Ed, "v": v, "scale": scale, "nrm": float(nrm), "resid": resid0}
 
 
 def _rayleigh(res):
-    Hd = sum(dense_mpo(h, res["ops"]) for h in res["Hs"])
+    Hd = dense_H(res)
     return [float((w.conj() @ Hd @ w).real / (w.conj() @ w).real) for w in res["vecs"]]
 
 
@@ -748,6 +826,11 @@ def run_case(ctx, case):
     ctx.count(f"precompute:{case['precompute']}")
     ctx.count(f"nproj:{case['nproj']}")
     ctx.count(f"nsplit:{case['nsplit']}")
+    hf = [abs(f) for f, _ in res["parts"]]
+    ctx.count("mpo_factors:" + ("unit" if all(f == 1 for f in hf) else "equal" if len(set(hf)) == 1 else "unequal")
+              + (",negative" if any(f < 0 for f, _ in res["parts"]) else "") + (",large" if max(hf) >= 20 else ""))
+    for pn in (case.get("penalties") or [])[:case["nproj"]]:
+        ctx.count("penalty:" + ("bare" if pn is None else "tuple-100" if pn == 100 else "tuple<100" if pn < 100 else "tuple>100"))
     check_traces(ctx, case, res)
     info = oracles(ctx, case, res)
     if case["kind"] == "trace" and not res["err"] and case["nproj"] == 0 and case.get("variants"):
@@ -757,20 +840,37 @@ def run_case(ctx, case):
 
 
 def project_case(ctx, rng, quick):
-    """ground state by a converged run, then the next level(s) with project=[...]"""
+    """ground state by a converged run, then the next level with project=[...]: the state is listed bare (default penalty 100)
+    or as (penalty, state) with the default value, a penalty below the gap or a penalty above the gap"""
     case = gen_case(rng, quick, "converge")
-    case["nsplit"] = 1
+    case.update({"nsplit": 1, "nproj": 0, "proj_seeds": [], "penalties": []})
     res, info = run_case(ctx, case)
     if res is None or res["err"] or info is None:
         return
     lam, scale = info["lam"], info["scale"]
-    if abs(info["Ed"] - lam[0]) > 1e-9 * scale or len(lam) < 3 or lam[1] - lam[0] < 0.05 or lam[-1] - lam[0] > 50:
+    mode = rng.choice(["bare", "tuple-default", "below-gap", "below-gap", "above-gap", "above-gap"])
+    u = rng.random()
+    if abs(info["Ed"] - lam[0]) > 1e-9 * scale or len(lam) < 3 or abs(info["nrm"] - 1) > 1e-10:
+        ctx.count("project_skipped_precondition")
+        return
+    gap = float(lam[1] - lam[0])
+    pen = {"bare": None, "tuple-default": 100, "below-gap": float(f"{gap * (0.2 + 0.6 * u):.6g}"),
+           "above-gap": float(f"{gap * 10 ** (0.2 + 1.3 * u):.6g}")}[mode]
+    p_eff = 100.0 if pen is None else float(pen)
+    # separation of the lowest level of  H' = H + p|psi0><psi0|  (levels lam0 + p, lam1, lam2, ...) needed for a run of 24
+    # sweeps to resolve it: at least 5e-4 of the spectral width of H' and 1% of the width of H
+    excess = float(lam[0] + p_eff - lam[1])
+    width = float(max(lam[-1], lam[0] + p_eff) - min(lam[1], lam[0] + p_eff))
+    thr = max(5e-4 * width, 0.01 * float(lam[-1] - lam[0]))
+    if gap <= 0 or p_eff <= 0 or abs(excess) < thr:
         ctx.count("project_skipped_precondition")
         return
     case2 = dict(case)
-    case2.update({"kind": "project", "psi_seed": rng.randrange(1 << 30), "nproj": 1, "proj_seeds": [],
+    case2.update({"kind": "project", "psi_seed": rng.randrange(1 << 30), "nproj": 1, "proj_seeds": [], "penalties": [pen],
                   "project_exact": True, "ground_case": _case_json(case), "precompute": rng.random() < 0.5,
-                  "nsplit": rng.choice([1, 2])})
+                  "nsplit": rng.choice([1, 2]), "penalty_mode": mode, "expect_orthogonal": excess > 0,
+                  # exact lowest eigenvector of H': |<psi0|v>| <= |residual of psi0| / excess
+                  "ov_tol": 1e-4 + (100 * info["resid"] / excess if excess > 0 else 0.0)})
     case2["project_states"] = [res["psi"]]
     try:
         with time_limit(30 if ctx.quick else 120):
@@ -778,9 +878,9 @@ def project_case(ctx, rng, quick):
     except CaseTimeout:
         ctx.count("case_timeouts")
         return
-    case2["nproj"] = 1
     ctx.case(_case_json(case2))
     ctx.count("kind:project")
+    ctx.count(f"project_penalty:{mode}")
     check_traces(ctx, case2, res2)
     oracles(ctx, case2, res2)
 
